@@ -73,8 +73,11 @@ type caseOut struct {
 	BannedLater           bool `json:"banned_later"`
 	CloudCallsWhileBanned int  `json:"cloud_calls_while_banned"`
 	// burst: per fresh key, admissions among the concurrently released first requests and the time they took
-	Admitted  []int   `json:"admitted,omitempty"`
-	ElapsedNs []int64 `json:"elapsed_ns,omitempty"`
+	Registers []bool   `json:"registers,omitempty"` // tokens: per candidate token form
+	Charged   []bool   `json:"charged,omitempty"`
+	Forms     []string `json:"forms,omitempty"`
+	Admitted  []int    `json:"admitted,omitempty"`
+	ElapsedNs []int64  `json:"elapsed_ns,omitempty"`
 }
 
 func ipStr(i int) string { return fmt.Sprintf("10.1.%d.%d", (i>>8)&255, i&255) }
@@ -191,21 +194,43 @@ func classify(resp *packet.HandshakeResponse) int {
 	}
 }
 
-func (g *rig) handshake(ip string, kind int) int {
+// candidate token strings of a ClientID == 0 handshake; which of them the handler accepts as a first connection
+// (= registers a new anonymous client) is PROBED on the real code (tokenTable), never assumed
+var tokenForms = []string{"new-client", "anonymous:dev-1", "anonymous:", "", "NEW-CLIENT", "anonymous",
+	"new-client ", "Anonymous:x", "anonymous:x:y", "new-client:anonymous:", "anonymous:\u4e2d", "guest"}
+
+// handshake: kind 0 = known-format request with an unknown client id (ClientID != 0, wrong credentials);
+// kind 1 / 2 = ClientID == 0 with token form `form`, credential generation succeeding / failing
+func (g *rig) handshake(ip string, arg int) int {
+	kind, form := arg%10, arg/10
 	conn := &fakeConn{addr: &net.TCPAddr{IP: net.ParseIP(ip), Port: 40000}}
 	req := &packet.HandshakeRequest{Version: "1", Protocol: "tcp"}
 	switch kind {
 	case 0:
 		req.ClientID = 4242
 	case 1:
-		req.Token = "new-client"
+		req.Token = tokenForms[form%len(tokenForms)]
 		atomic.StoreInt32(&g.cloud.genFail, 0)
 	default:
-		req.Token = "new-client"
+		req.Token = tokenForms[form%len(tokenForms)]
 		atomic.StoreInt32(&g.cloud.genFail, 1)
 	}
 	resp, _ := g.h.HandleHandshake(conn, req)
 	return classify(resp)
+}
+
+// tokenTable probes, for every candidate token of a ClientID == 0 handshake on a fresh address: does it register a
+// new client, and is the address's registration bucket charged for it (burst 2, 1 token/s: after one charge a
+// 2-token request is refused)
+func tokenTable() (registers, charged []bool) {
+	g := newRig(cfgIn{MaxF: 50, WindowMs: 60000, BanMs: 60000, Perm: 500, Rate: 1, Burst: 2, TTLMs: 600000})
+	defer g.cancel()
+	for f := range tokenForms {
+		ip := ipStr(5000 + f)
+		registers = append(registers, g.handshake(ip, 1+10*f) == 4)
+		charged = append(charged, !g.r.AllowIPBurst(ip, 2))
+	}
+	return
 }
 
 func b2i(b bool) int {
@@ -461,6 +486,9 @@ func runCase(raw []byte) *caseOut {
 		return runBurst(&c)
 	case "shadow":
 		return runShadow(&c)
+	case "tokens":
+		reg, ch := tokenTable()
+		return &caseOut{Kind: "tokens", Registers: reg, Charged: ch, Forms: tokenForms}
 	}
 	panic("bad kind " + c.Kind)
 }
@@ -470,7 +498,7 @@ func gen() {
 	ipc := security.DefaultIPRateLimitConfig()
 	tc := security.DefaultTunnelRateLimitConfig()
 	fmt.Println("(* generated by verif_c18 gen from /repo's working tree — do not edit *)")
-	fmt.Println("From Coq Require Import ZArith. Open Scope Z_scope.")
+	fmt.Println("From Coq Require Import ZArith List. Open Scope Z_scope.")
 	fmt.Println("(* security.DefaultBruteForceConfig(); durations in milliseconds *)")
 	fmt.Printf("Definition DefaultMaxFailures : Z := %d.\n", bf.MaxFailures)
 	fmt.Printf("Definition DefaultTimeWindowMs : Z := %d.\n", bf.TimeWindow.Milliseconds())
@@ -479,6 +507,14 @@ func gen() {
 	fmt.Printf("Definition DefaultCleanupIntervalMs : Z := %d.\n", bf.CleanupInterval.Milliseconds())
 	fmt.Println("(* security.DefaultIPRateLimitConfig() / DefaultTunnelRateLimitConfig() *)")
 	fmt.Printf("Definition IPRate : Z := %d.\nDefinition IPBurst : Z := %d.\nDefinition IPTTLMs : Z := %d.\n", ipc.Rate, ipc.Burst, ipc.TTL.Milliseconds())
+	reg, ch := tokenTable()
+	fmt.Println("(* HandleHandshake with ClientID = 0, probed for each candidate token string (harness tokenForms):")
+	fmt.Println("   (registers a new anonymous client, charges the registration bucket of the address) *)")
+	fmt.Println("Definition token_table : list (bool * bool) := (")
+	for i := range reg {
+		fmt.Printf("  (%v, %v) :: (* %q *)\n", reg[i], ch[i], tokenForms[i])
+	}
+	fmt.Println("  nil)%list.")
 	fmt.Printf("Definition TunnelRate : Z := %d.\nDefinition TunnelBurst : Z := %d.\nDefinition TunnelTTLMs : Z := %d.\n", tc.Rate, tc.Burst, tc.TTL.Milliseconds())
 }
 
